@@ -58,11 +58,12 @@ def filtersOk (e : Entity) : Bool :=
   | some q => q.filters.all fun f => e.statuses.contains f
 
 /-- `statusEnumField.ListRules.Filtering.DefaultFilters`: `findStatus` of every default status
-filter = `<SCREAMING_SNAKE(entity)>_STATUS_` + the status name as written -/
+filter = the value name the status enum gives the status (`enumBuilder.addValue`: the prefix
+`<SCREAMING_SNAKE(entity)>_STATUS_` is added unless the name as written already carries it) -/
 def defaultFilters (e : Entity) : List Str :=
   match e.query with
   | none => []
-  | some q => q.filters.map fun f => statusPrefix e ++ f
+  | some q => q.filters.map fun f => enumFull (statusPrefix e) f
 
 def stateObject (e : Entity) : ObjDecl :=
   .mk (componentName e b!"State")
